@@ -64,6 +64,8 @@ func (m *mockCLA) Send(b bpv7.Bundle) error {
 func testCore(algo string, dir string) *Core {
 	conf := RoutingConf{Algorithm: algo}
 	conf.SprayConf.Multiplicity = 3
+	conf.DTLSRConf = DTLSRConfig{RecomputeTime: "30s", BroadcastTime: "30s", PurgeTime: "10m"}
+	conf.ProphetConf = ProphetConfig{PInit: 0.75, Beta: 0.25, Gamma: 0.98, AgeInterval: "1m"}
 	c, err := NewCore(dir, bpv7.MustNewEndpointID("dtn://this/"), false, conf, nil)
 	if err != nil {
 		verif.Assert(false, "core starts")
